@@ -18,13 +18,27 @@ RULE = ("fan-in workflows u1..un -> j(join) -> d, n in {2,3}, every join type (A
         "(legal = A holds no SQLite lock); quick: the important pairs (StartStage x StartStage, StartStage x CompleteStage, CompleteStage x CompleteStage, "
         "StartStage x SignalStage, duplicates) plus a seeded sample with a third worker C nested at every legal point of B; thorough: all pairs, and the "
         "nested third worker for DISCRIMINATOR / N_OF_M with 3 branches, the signal workflow and the no-predefined-tasks (zombie-capable) workflow; "
+        "family alternation (A1 B1 A2 B2 [A3], not a nesting): for StartStage(j) x StartStage(j) (two rows or the same row twice), StartStage(j) x "
+        "CompleteStage(u) and CompleteStage(u) x StartStage(j), B injected at A's legal point k yields back at ITS legal point j, A runs on to its legal "
+        "point m (or to its end), then B resumes; schedules that differ only in the order of adjacent plain reads are the same trace, so (k, j, m) is "
+        "enumerated up to that equivalence; class core (B has read everything and pauses at its first write statement, A commits 1..n whole write "
+        "transactions) runs in full in both tiers, the classes p2 (B pauses between two of its reads), p3a (m inside a read block of A) and p3b "
+        "(B1 already committed a write) are a seeded sample per (workflow, prefix, pair) in quick and exhaustive (p2, p3a for StartStage x StartStage) "
+        "or a larger sample in thorough; "
         "afterwards the queue is drained FIFO. "
-        "A schedule is distinct by (workflow, prefix, ops, injection indices) and non-trivial when B really ran inside A. "
-        "Each schedule is mapped to a ClaimProtocol schedule (one model step per observed row read / CAS transaction) and the post-race row state, "
-        "ghost counters and per-worker outcomes are compared with the Lean model.")
+        "A schedule is distinct by (workflow, prefix, ops, injection indices, yield points) and non-trivial when B really ran inside A (alternation: "
+        "when A performed at least one call between B's yield and B's resumption). "
+        "Each schedule is mapped to a ClaimProtocol schedule (one model step per observed row read / CAS transaction; nestings by injection index, "
+        "alternations by the global order in which the DB calls were performed, the two orders are cross-checked on every nesting) and the post-race "
+        "row state, ghost counters and per-worker outcomes are compared with the Lean model.")
 ASSUMPTIONS = [
-    "Mode B explores the interleavings SQLite's single-writer locking permits at transaction granularity plus all read/CAS windows, nested to depth 2; "
-    "it is not every statement-level interleaving of three free-running workers (see harness/modeb.py)",
+    "Mode B explores the interleavings SQLite's single-writer locking permits at transaction granularity plus all read/CAS windows: nestings to depth 2 "
+    "(B atomically inside a window of A, C inside a window of B) and, for two workers on the StartStage pairs, alternations with ONE yield of B "
+    "(A1 B1 A2 B2 A3: four context switches; core class exhaustive, the other classes sampled in the quick tier); it is not every statement-level "
+    "interleaving: two or more yields of B, alternations of three workers and alternations of CompleteStage x CompleteStage / SignalStage pairs are "
+    "not enumerated (see harness/modeb.py)",
+    "the reduction of alternation triples (k, j, m) treats two plain SELECTs outside a transaction of different workers as commuting, and any "
+    "INSERT/UPDATE/DELETE (whatever table) as conflicting with everything",
     "poll_one's claim of a row is done by the harness before the handler runs (the two workers already hold their messages); queue polling races are C08",
     "delays are treated as elapsed only when nothing else is deliverable; wait budgets (max_stage_wait_retries=2 here) are not exhausted while work is pending",
     "engine retry bounds (_CLAIM_RETRY_LIMIT, _update_join_tracking max_retries, max_attempts/DLQ) are not reached by <= 2 concurrent foreign writers; "
@@ -33,7 +47,8 @@ ASSUMPTIONS = [
 TRUSTED_BASE = [
     "ClaimProtocol models StartStageHandler._start_if_ready (claim/plan), CompleteStageHandler's RUNNING guard + _update_join_tracking + completion CAS and "
     "SignalStageHandler's persistent buffering at the granularity of row reads and transactions; it is tied to the code by the per-schedule comparison only",
-    "the trace abstraction in harness/props/c04.py (which DB call completes which model step)",
+    "the trace abstraction in harness/props/c04.py (which DB call completes which model step), and for alternations modeb's global call order "
+    "(Call.g, assigned under the baton right before the call is performed; only one worker thread runs at any time)",
     "other handlers reached during the drain (StartTask, RunTask, CompleteTask, CompleteWorkflow) are exercised by the monitors only",
 ]
 
@@ -135,6 +150,12 @@ def abstract(op, code: str, jid: str, uids: dict[str, int]) -> Abstract:
                 phase = "decided"
             elif k == "syn" and phase == "decided":
                 marks.append((idx, 1))      # zombie check read
+                if not first_pass:
+                    # retry pass after a lost (re-)claim: the re-read row was still in the expected phase RUNNING and the handler went back
+                    # into _start_if_ready (only that path reads the synthetic stages).  Unless a claim follows, it found the stage planned
+                    # meanwhile and ignored the message: the model's `ignored`, not `lostClaim` (reachable only by an alternation: the
+                    # claimant's plan commit lands between this worker's zombie check and its re-claim)
+                    cls = "noop"
             elif k == "jupd" and phase == "decided":
                 if a == 0:
                     marks.append((idx, 1)); fail += 1
@@ -681,7 +702,7 @@ def unit_prefix(args: dict) -> dict:
             res["points"] += len(legal)
             res["illegal_points"] += len(calls) + 1 - len(legal)
             key = f"{a[0]}>{b[0]}"
-            altcfg = args.get("alt") if args.get("alt") and key in args["alt"]["pairs"] else None
+            altcfg = dict(args["alt"]["by_pair"][key], seed=args["alt"].get("seed", 0)) if args.get("alt") and key in args["alt"]["by_pair"] else None
             nested: dict[int, list] = {}
             for k in legal:
                 ops = [opsA[0], {"name": "B", "code": b[0], "nth": b[1], "at": k}]
@@ -769,7 +790,7 @@ def explore(ctx, jobs: list[dict]) -> None:
         def _pk(u: dict) -> str:
             return f"{u['only_pair'][0][0]}>{u['only_pair'][1][0]}" if u["only_pair"] else ""
 
-        units.sort(key=lambda u: (0 if u["depth2"] and _pk(u) in u["depth2"] else (1 if u.get("alt") and _pk(u) in u["alt"]["pairs"] else 2)))
+        units.sort(key=lambda u: (0 if u["depth2"] and _pk(u) in u["depth2"] else (1 if u.get("alt") and _pk(u) in u["alt"]["by_pair"] else 2)))
         results = pool.map(unit_prefix, units, chunksize=1)
     digest(ctx, results)
     mbx = ctx.extra.setdefault("modeb", {})
@@ -865,6 +886,20 @@ def replay_body(body: dict) -> dict:
         lab.close()
 
 
+def alt_config(seed: int, thorough: bool) -> dict:
+    """family alternation: which pairs, and how much of each candidate class (None = all, n = seeded sample per (workflow, prefix, pair)).
+    core (stale read then CAS across whole write transactions of A) always runs in full."""
+    ss = "SS(j)>SS(j)"
+    mixed = [f"SS(j)>CS(u{i})" for i in (1, 2, 3)] + [f"CS(u{i})>SS(j)" for i in (1, 2, 3)]
+    if thorough:
+        by = {ss: {"p2": None, "p3a": None, "p3b_kj": 24, "p3b_m": 4}}
+        by.update({k: {"p2": None, "p3a": 12, "p3b_kj": 6, "p3b_m": 2} for k in mixed})
+    else:
+        by = {ss: {"p2": 8, "p3a": 2, "p3b_kj": 2, "p3b_m": 2}}
+        by.update({k: {"p2": 2, "p3a": 0, "p3b_kj": 0, "p3b_m": 0} for k in mixed})
+    return {"seed": seed, "by_pair": by}
+
+
 D2_QUICK = ["SS(j)>CS(u2)", "SS(j)>SS(j)", "CS(u2)>SS(j)", "SS(j)>SG(j)"]
 D2_THOROUGH = ["SS(j)>CS(u2)", "SS(j)>CS(u3)", "SS(j)>SS(j)", "CS(u2)>SS(j)", "SS(j)>SG(j)"]
 
@@ -879,14 +914,15 @@ def run(ctx) -> None:
         d2keys = {"DISCRIMINATOR-n3-pre", "N_OF_M2-n3-pre", "AND-n2-pre-sig", "DISCRIMINATOR-n2-gen", "DISCRIMINATOR-n2-pre"}
         d2 = [w for w in wfs if w.key() in d2keys]
         rest = [w for w in wfs if w.key() not in d2keys]
-        explore(ctx, [{"wfs": d2, "thorough": True, "depth2": D2_THOROUGH, "pair_filter": None, "depth2_c": 1},
-                      {"wfs": rest, "thorough": True, "depth2": [], "pair_filter": None}])
+        alt = alt_config(ctx.seed, True)
+        explore(ctx, [{"wfs": d2, "thorough": True, "depth2": D2_THOROUGH, "pair_filter": None, "depth2_c": 1, "alt": alt},
+                      {"wfs": rest, "thorough": True, "depth2": [], "pair_filter": None, "alt": alt}])
     else:
         wfs = workflows(False)
         # a seeded sample of depth-2 schedules on top of all depth-1 schedules of the important pairs
         pick = ctx.rng.sample([w for w in wfs if w.n == 3 or w.signal or not w.pre], 2)
         d2pair = ctx.rng.choice(D2_QUICK[:3])
-        explore(ctx, [{"wfs": wfs, "thorough": False, "depth2": [], "pair_filter": IMPORTANT},
+        explore(ctx, [{"wfs": wfs, "thorough": False, "depth2": [], "pair_filter": IMPORTANT, "alt": alt_config(ctx.seed, False)},
                       {"wfs": pick, "thorough": False, "depth2": [d2pair], "pair_filter": {d2pair}, "maxlen_extra": 0}])
 
 
